@@ -43,9 +43,9 @@ def run(ctx):
                                  "generator_counters": st,
                                  "oracle_evaluations": st.get("oracle_evaluations", 0)}
     ctx.trusted += [
-        "H-sort: Go's sort.Slice returns a permutation of its input that is sorted for the comparator when the comparator is a strict order on the names (premise hsort of the C18 theorems; the executable instance ksort is proved to satisfy it)",
+        "H-sort: proved for the exact model of Go's insertionSort_func (what sort.Slice runs for at most 12 elements: C18_go_insertion_sort_satisfies_hsort); for more than 12 objects of one kind (pdqsort) it remains the premise hsort of the C18 theorems",
         "object names within one listed kind are distinct (premise nodup_names; the API server guarantees it per namespace and MetalLB lists one namespace)",
-        "model covers config_conversion.go toConfig/sortedCopy and config.go poolsFor/poolsByNamespace/poolsByServiceSelector and what they call (see header of Model/Cfg.v); validate, bfdProfilesFor, peersFor, communitiesFromCrs, bgpExtrasFor, validateConfig are arbitrary functions [other]/[vcfg] of the sorted snapshot in the theorems: their Go code iterates maps only in existence tests, checked on the real code by the DeepEqual oracle (50 repetitions, permutations), not proved",
+        "model covers config_conversion.go toConfig/sortedCopy, the whole config.For (poolsFor and what it calls: Model/Cfg.v; validators, bfdProfilesFor, peersFor, parseTimers, secrets, communitiesFromCrs/getCommunityValue, bgpExtrasFor, validateConfig: Model/CfgFull.v) and the reconcilers' compare-and-skip; compared field by field with the real toConfig on every generated snapshot; maps are iterated only in existence tests there (written with existsb/find in the model)",
         "reflect.DeepEqual on *config.Config is value equality of the projected observables plus the non-pool part (labels.Selector internals are compared by DeepEqual in Go, by count in the model)",
     ]
     ctx.assumptions += ["the snapshot handed to toConfig is what the API server listed; informer cache consistency is not modelled"]
